@@ -77,8 +77,12 @@ def _lookup(bus, a: int):
         return ("rej", type(e).__name__, None)
 
 
+# an address of more than 24 bits (a digit too many, base + 0x1000000 arithmetic) names no bank of any mapping, whatever its low 24 bits are
+BEYOND_24_BITS = [(k << 24) | low for k in (1, 2, 0x100) for low in (0x008000, 0xC00000, 0x7E0000, 0x808000, 0xFF8000, 0x408000)]
+
+
 def check_lookup(res: Res, cfg, bus, rom: str, a: int, table, wit: dict | None = None) -> None:
-    r = table[a >> 16]
+    r = table[a >> 16] if 0 <= (a >> 16) < 256 else None
     W = wit if wit is not None else {"kind": "lookup", "rom": rom, "a": a}
     got = _lookup(bus, a)
     if r is None:
@@ -125,6 +129,10 @@ def run_lookup(shard: dict, res: Res) -> None:
     for a in range(lo, hi, stride):
         check_lookup(res, cfg, bus, rom, a, table)
     if shard.get("edges"):
+        if lo == 0:
+            for a in BEYOND_24_BITS:
+                check_lookup(res, cfg, bus, rom, a, table)
+                res.count("lookups_beyond_24_bits")
         for bank in range(lo >> 16, hi >> 16):
             for low in (0, 1, 0x7FFE, 0x7FFF, 0x8000, 0x8001, 0xFFFE, 0xFFFF):
                 a = (bank << 16) | low
@@ -353,6 +361,7 @@ def run_maps(shard: dict, res: Res) -> None:
                     probes.add((bank << 16) | low)
         for _ in range(40):
             probes.add(rng.randint(0, 0xFFFFFF))
+        probes |= set(rng.sample(BEYOND_24_BITS, 4))
         for a in sorted(probes):
             check_lookup(res, cfg, bus, tag, a, table, dict(wit, a=a))
         for _ in range(300):
